@@ -2,9 +2,9 @@
 from engine import rule, CheckBroken
 from actorlib import roles
 from slicing import Slicer
-from intervals import IntervalWalker, merge_partition, INT_RANGES
+from intervals import IntervalWalker, merge_partition, compare_partitions, INT_RANGES
 from common import await_class, short_ty
-from props.c05 import classify_duration_path, diff_partition
+from props.c05 import classify_duration_path, diff_partition, secs_point_equiv
 from props import c03
 import libmodel as L
 
@@ -190,12 +190,13 @@ def r04_3(prog, out):
     got = merge_partition(items)
     lo, hi = INT_RANGES["i32"]
     expected = [(lo, 10, "Some(from_secs 10)"), (11, hi, "Some(from_secs input)")]
-    if got == expected:
-        out.holds(key, bi.loc(start), "partition of ack_deadline_seconds is exactly %s" % got)
+    diffs = compare_partitions(got, expected, secs_point_equiv)
+    if not diffs:
+        out.holds(key, bi.loc(start), "partition of ack_deadline_seconds is %s" % got)
     elif any("?" in g[2] for g in got):
         out.undecided(key, bi.loc(start), "a path produces a value the analysis cannot classify: %s" % got)
     else:
-        out.violation(key, bi.loc(start), "the effective ack deadline differs from the specification on %s" % "; ".join(diff_partition(got, expected)),
+        out.violation(key, bi.loc(start), "the effective ack deadline differs from the specification on %s" % "; ".join(diffs),
                       ["got      %s" % got, "expected %s" % expected])
     # never modified afterwards
     cell = A.cell("SubscriptionInfo", "ack_deadline")
